@@ -30,7 +30,10 @@ def do_case(ctx, inp):
                {"rows": rows_json(rows), "vars": avars, "safe": solver_safe(t)}, norm=norm_encode)
     n = inp.get("n_assign", 256 if ctx.quick else 2048)
     for sigma in assignments(ctx.rng, lv, n):
-        res = o.evaluate_propositions(sigma)
+        # a third of the assignments are handed over as numpy integer scalars of the narrowest width that holds them
+        given = {k: np_scalar(ctx.rng, v) for k, v in sigma.items()} if ctx.rng.random() < 0.33 else sigma
+        if given is not sigma: ctx.tags["assignment-as-numpy-scalars"] += 1
+        res = o.evaluate_propositions(given)
         x = {}
         for k, b in res.items():
             if b.constant is None:
